@@ -458,14 +458,14 @@ def main(args):
     ck.shadow_stats = symx.load().stats
     parts = []
     if ck.tier == 'quick':
-        for g, nch in (('G2', 2), ('G5', 4), ('G9', 2), ('G10', 4), ('G16', 2), ('G8', 1), ('G21', 2), ('G22', 2)):
+        for g, nch in (('G2', 2), ('G5', 4), ('G9', 2), ('G10', 4), ('G16', 2), ('G8', 1), ('G21', 2), ('G22', 2), ('G19', 2)):
             parts += [('matrix', (g, 1, c, nch)) for c in range(nch)]
         for g in ('G2', 'G6', 'G9'):
             parts += [('rhs_far', (g, c, 2)) for c in range(2)]
         parts += [('near_rel', (g,)) for g in ('G2', 'G3')]
         parts += [('split', sp) for sp in SPLITS[:5]]
     else:
-        for g, nch in (('G2', 2), ('G4', 2), ('G5', 12), ('G6', 12), ('G9', 2), ('G10', 12), ('G16', 2), ('G8', 1), ('G21', 2), ('G22', 2)):
+        for g, nch in (('G2', 2), ('G4', 2), ('G5', 12), ('G6', 12), ('G9', 2), ('G10', 12), ('G16', 2), ('G8', 1), ('G21', 2), ('G22', 2), ('G19', 2), ('G20', 2)):
             parts += [('matrix', (g, 2 if nch <= 2 else 1, c, nch)) for c in range(nch)]
         for g, nch in (('G2', 1), ('G5', 6), ('G6', 6), ('G9', 1), ('G10', 6), ('G16', 1)):
             parts += [('rhs_far', (g, c, nch)) for c in range(nch)]
